@@ -854,6 +854,16 @@ func (u *Unit) execTypeAssert(st *State, x *ssa.TypeAssert) Value {
 			res = u.freshValue(at, "unbox")
 		} else {
 			res = Sc{app("ipay"+k, scalarSort(at), v.T), at}
+			// a non-nil interface value of dynamic type T IS the boxing of its payload (type invariant of interface
+			// values: only MakeInterface creates them): re-boxing the asserted payload gives the same interface value
+			if u.ctx.inQuant == 0 {
+				rb := app("mkiface"+k, SInt, tag, app("ipay"+k, scalarSort(at), v.T))
+				key := "rebox:" + rb.S
+				if !u.subSeen[key] {
+					u.subSeen[key] = true
+					u.ctx.Assert(Implies(ok, Eq(rb, v.T)), "iface-rebox")
+				}
+			}
 		}
 	}
 	if x.CommaOk {
